@@ -252,7 +252,7 @@ def build_el(st, uid):
                         els.append(lena.core.FillInto(lena.flow.Count(s["name"], s["c0"])))
                     else:
                         els.append(build_el(s, uid))
-                els.append(BlockSum(b["stop"]))
+                els.append(BlockSum(b["stop"], b.get("pairs", False)))
                 els.extend(build_el(s, uid) for s in b["post"])
                 brs.append(lena.core.FillRequestSeq(*els, bufsize=1, reset=False, buffer_input=True)
                            if b.get("explicit") else tuple(els))
@@ -280,8 +280,8 @@ class BlockSum(object):
     """the fill/request element of the harness: adds up the data it is filled with; `request()` yields the sum of
     what was filled since the last request and clears it; once `stop` values were filled, `fill` raises LenaStopFill"""
 
-    def __init__(self, stop=None):
-        self.stop, self.n, self.acc = stop, 0, 0
+    def __init__(self, stop=None, pairs=False):
+        self.stop, self.n, self.acc, self.pairs = stop, 0, 0, pairs
 
     def fill(self, value):
         import lena.core
@@ -292,7 +292,7 @@ class BlockSum(object):
 
     def request(self):
         acc, self.acc = self.acc, 0
-        yield Val(acc)
+        yield (Val(acc), {}) if self.pairs else Val(acc)
 
 
 class Runaway(Exception):
@@ -330,7 +330,28 @@ def source(n, st, pairs):
     st.alive_log.append(st.alive)
 
 
-def one_run(case, k):
+def second_run(seq, case, n2):
+    """run the SAME pipeline object again on a fresh instrumented input of n2 values (drained)"""
+    st = SrcState()
+    try:
+        flow = seq.run(source(n2, st, case.get("pairs", False)))
+    except Exception as e:
+        return {"built": st.clock, "r": [], "end": "error:" + exc_name(e), "clock": st.clock}
+    built = st.clock
+    res, end = [], "exhausted"
+    try:
+        for v in flow:
+            res.append(proj(v) + [st.clock])
+            del v
+            if len(res) >= MAXRES:
+                end = "stopped"
+                break
+    except Exception as e:
+        end = "error:" + exc_name(e)
+    return {"built": built, "r": res, "end": end, "clock": st.clock, "max_alive": max(st.alive_log or [0])}
+
+
+def one_run(case, k, keep=None):
     """build the pipeline afresh, take at most k results (k None: until it ends).
     Returns (built_clock, results, end, final_clock, clock_after_close, alive_log)."""
     import lena.core
@@ -342,6 +363,13 @@ def one_run(case, k):
             # Source(first, *els)() is Sequence(*els).run(first())
             seq = lena.core.Source(lambda: source(case["n"], st, case.get("pairs", False)), *els)
             flow = seq()
+        elif case.get("via") == "source_iterable":
+            # the first element is a re-iterable container-like object (`__iter__` makes the instrumented generator)
+            class _Iterable(object):
+                def __iter__(self_):
+                    return source(case["n"], st, case.get("pairs", False))
+            seq = lena.core.Source(_Iterable(), *els)
+            flow = seq()
         elif case.get("via") == "source_iter":
             # the first element is a one-pass iterator OBJECT (a generator object): __call__ must hand it on untouched
             import warnings
@@ -351,6 +379,10 @@ def one_run(case, k):
             flow = seq()
         else:
             src = source(case["n"], st, case.get("pairs", False))
+            g = case.get("group")
+            if g and len(els) >= 2:
+                # nested Sequences are flattened by LenaSequence.__init__: the same pipeline
+                els = els[:g[0]] + [lena.core.Sequence(*els[g[0]:g[1]])] + els[g[1]:]
             seq = lena.core.Sequence(*els)
             flow = seq.run(src)
     except Runaway:
@@ -359,6 +391,8 @@ def one_run(case, k):
     except Exception as e:
         return st.clock, [], "error:" + exc_name(e), st.clock, st.clock, st.alive_log
     built = st.clock
+    if keep is not None:
+        keep.append(seq)
     res = []
     end = "stopped"
     try:
@@ -405,13 +439,30 @@ def run_impl(case):
 
 def _run_impl(case):
     with contextlib.redirect_stdout(io.StringIO()):
-        built, res, end, final, _, alive = one_run(case, case["K"])
+        keep = []
+        built, res, end, final, _, alive = one_run(case, case["K"], keep)
+        second = None
+        if case.get("reuse") is not None and keep and end == "exhausted":
+            second = second_run(keep[0], case, case["reuse"])
+        probe = None
+        if case.get("probe") and end == "exhausted" and res:
+            # extensional minimality probe: the same pipeline on the input cut just before the pull that delivered
+            # the last result
+            k = len(res)
+            cut = dict(case, n=res[-1][2] - 1, ks=[], reuse=None, probe=False)
+            _, r2, e2, _, _, _ = one_run(cut, None)
+            probe = {"k": k, "n": cut["n"], "r": r2, "end": e2}
         stops = []
         for k in case.get("ks", []):
             b2, r2, e2, f2, c2, _ = one_run(case, k)
             stops.append([k, len(r2), f2, c2, e2])
-    return {"built": built, "r": res, "end": end, "clock": final, "stops": stops,
-            "max_alive": max(alive) if alive else 0}
+    out = {"built": built, "r": res, "end": end, "clock": final, "stops": stops,
+           "max_alive": max(alive) if alive else 0}
+    if second is not None:
+        out["second"] = second
+    if probe is not None:
+        out["probe"] = probe
+    return out
 
 
 # ----------------------------------------------------------------------------------------
@@ -454,6 +505,11 @@ def model_requests(case):
     stages = [_strip(s) for s in case["stages"]]
     k = case["K"]
     reqs = [{"op": "run", "stages": stages, "n": case["n"], "k": MAXRES if k is None else k, "fuel": FUEL}]
+    # the consumer stop points (at most three per case) and the second run of a re-used pipeline object
+    for kk in case.get("ks", [])[:3]:
+        reqs.append({"op": "run", "stages": stages, "n": case["n"], "k": kk, "fuel": FUEL})
+    if case.get("reuse") is not None:
+        reqs.append({"op": "run", "stages": stages, "n": case["reuse"], "k": MAXRES, "fuel": FUEL})
     if case["n"] is not None:
         reqs.append({"op": "spec", "stages": stages, "n": case["n"], "fuel": FUEL})
         reqs.append({"op": "den", "stages": stages, "n": case["n"]})
@@ -467,6 +523,26 @@ def compare(case, res, replies):
     m = replies[0]
     if "err" in m:
         return f"model driver error: {m['err']}"
+    nk = len(case.get("ks", [])[:3])
+    stop_replies = replies[1:1 + nk]
+    second_reply = replies[1 + nk] if case.get("reuse") is not None else None
+    replies = [m] + replies[1 + nk + (1 if case.get("reuse") is not None else 0):]
+    if res["end"] != "runaway":
+        for (k, got, fk, ck, ek), mk in zip(res["stops"], stop_replies):
+            if "err" in mk:
+                return f"model driver error: {mk['err']}"
+            if ek == "runaway":
+                continue
+            if got != len(mk["r"]) or fk != mk["clock"] or ek.split("+")[0] != mk["end"]:
+                return (f"a consumer that takes {k} results: impl {got} results, {fk} pulls, {ek} vs model "
+                        f"{len(mk['r'])} results, {mk['clock']} pulls, {mk['end']}")
+    if second_reply is not None and "second" in res:
+        s2 = res["second"]
+        if s2["r"] != second_reply["r"] or s2["end"] != second_reply["end"] or s2["clock"] != second_reply["clock"] \
+                or s2["built"] != 0:
+            return (f"second run of the same pipeline object on {case['reuse']} values: impl {s2['r']} "
+                    f"{s2['end']}@{s2['clock']} (built {s2['built']}) vs model {second_reply['r']} "
+                    f"{second_reply['end']}@{second_reply['clock']}")
     if res["built"] != m["built"]:
         return f"clock after building: impl {res['built']} vs model {m['built']}"
     if not m.get("wf", True):
@@ -499,6 +575,8 @@ def compare(case, res, replies):
         sp, dn = replies[1], replies[2]
         if "err" in sp or "err" in dn:
             return f"model driver error: {sp} {dn}"
+        if not sp.get("fuelok"):
+            return "the fuel given to the model does not satisfy seqFuelOKb (the hypothesis of pipeline_lazy) on this case"
         if sp["r"] != res["r"] or sp["cf"] != res["clock"]:
             return f"Lean specification {sp} differs from the implementation trace {res['r']} end {res['clock']}"
         if dn["r"] != [x[:2] for x in res["r"]]:
@@ -772,8 +850,9 @@ def _caps(stages):
                 continue                  # Split([]) passes the flow through
             if eff_bufsize(st) is None:
                 return None, cnt
-            # the block being read plus the block just processed (still bound to `orig_buf`)
-            cap += 2 * eff_bufsize(st)
+            # the block being read, the block bound to `orig_buf`, and the block bound to `buf` (the block last handed
+            # to a branch: a different one only when every branch has stopped) - lena/core/split.py
+            cap += 3 * eff_bufsize(st)
             cnt += sum(len(b.get("stages", [])) + len(b.get("pre", [])) for b in st["branches"])
     return cap, cnt
 
@@ -829,6 +908,34 @@ def oracle(case, res):
             return f"{name}: a consumer that takes {k} results caused {fk} pulls, the long run had {want} at that point"
         if ck != fk:
             return f"{name}: closing the pipeline after {k} results pulled {ck - fk} more value(s)"
+    # the same pipeline object run a second time: as lazy as the first time
+    if "second" in res:
+        s2 = res["second"]
+        if s2["built"] != 0:
+            return f"{name}: second run of the same pipeline object: {s2['built']} pull(s) when run() was called"
+        if s2["end"].startswith("error"):
+            return f"{name}: second run of the same pipeline object raised {s2['end']}"
+        c2 = dict(case, n=case["reuse"])
+        (_, rv2, rcf2), hz2 = reference(c2)
+        if [x[:2] for x in s2["r"]] == [[v[0], v[1]] for v, _ in rv2]:
+            for j, (x, (v, bound)) in enumerate(zip(s2["r"], rv2)):
+                if x[2] > bound:
+                    return (f"{name}: second run of the same pipeline object over {case['reuse']} values: result "
+                            f"#{j + 1} after {x[2]} pulls, the prefix that determines it has {bound}")
+            if s2["end"] == "exhausted" and s2["clock"] > rcf2:
+                return f"{name}: second run: the end was reported after {s2['clock']} pulls, {rcf2} suffice"
+        else:
+            return (f"{name}: second run of the same pipeline object over {case['reuse']} values yields "
+                    f"{[x[:2] for x in s2['r']]}, a fresh pipeline {[[v[0], v[1]] for v, _ in rv2]}: state was kept "
+                    f"between two runs")
+    # "shortest prefix": for pipelines of exact elements (no look-ahead, lag or block) the input cut just before the
+    # pull that delivered result k must not already deliver result k (extensional: no reference computation involved)
+    if "probe" in res:
+        pr = res["probe"]
+        if len(pr["r"]) >= pr["k"] and pr["r"][pr["k"] - 1][:2] == res["r"][pr["k"] - 1][:2]:
+            return (f"{name}: result #{pr['k']} {res['r'][pr['k'] - 1][:2]} was handed over after "
+                    f"{res['r'][pr['k'] - 1][2]} pulls although the first {pr['n']} input values already determine it "
+                    f"(the same pipeline over only {pr['n']} values yields it too)")
     # bounded buffering
     cap, cnt = _caps(case["stages"])
     if cap is not None:
@@ -875,6 +982,8 @@ def describe(case):
     src = "infinite input" if case["n"] is None else f"input of {case['n']} values"
     if case.get("via") == "source":
         return f"Source({', '.join(['<input>'] + [d(s) for s in case['stages']])})() with an {src}"
+    if case.get("via") == "source_iterable":
+        return f"Source({', '.join(['<iterable object>'] + [d(s) for s in case['stages']])})() with an {src}"
     if case.get("via") == "source_iter":
         return f"Source({', '.join(['<iterator object>'] + [d(s) for s in case['stages']])})() with an {src}"
     return f"Sequence({', '.join(d(s) for s in case['stages'])}) over an {src}"
@@ -1006,7 +1115,7 @@ def g_split(rng, pairs, names, infinite=False, nested=True):
             if nested and rng.random() < 0.15:
                 post.append({"t": "cache"})      # a Cache outside a sequence-type branch does not demote bufsize
             brs.append({"k": "fr", "pre": pre, "stop": rng.choice([None, None, 1, 3, 6]), "post": post,
-                        "explicit": rng.random() < 0.2})
+                        "explicit": rng.random() < 0.2, "pairs": pairs})
         else:
             pre = []
             for _ in range(rng.randint(0, 2)):
@@ -1068,13 +1177,45 @@ def random_case(rng, tier):
             if st["t"] == "split":
                 st["copy"] = True
     r = rng.random()
-    via = "source" if r < 0.2 else ("source_iter" if r < 0.3 else "sequence")
+    via = "source" if r < 0.17 else ("source_iter" if r < 0.26 else ("source_iterable" if r < 0.32 else "sequence"))
     if infinite:
         return mk_case(stages, None, pairs, K=rng.randint(0, 9), ks=[rng.randint(0, 6)], via=via)
     n = rng.choice([0, 1, 2, 3, 4, 5, 6, 7, 8, 10, 12, 25 if tier == "quick" else 40])
+    if any(st["t"] == "split" and (st["bufsize"] or 0) in (8, 16) for st in stages):
+        n = rng.choice([5, 6]) * max(st["bufsize"] for st in stages if st["t"] == "split" and st["bufsize"] in (8, 16)) \
+            + rng.randint(0, 3)           # several blocks: a retained extra block exceeds the slack of the bound
     ks = sorted(set([0, rng.randint(0, n + 1), rng.randint(0, n + 1)])) if tier == "quick" else list(range(0, n + 2))
-    return mk_case(stages, n, pairs, K=None, ks=ks, via=via)
+    case = mk_case(stages, n, pairs, K=None, ks=ks, via=via)
+    txt = json.dumps(stages)
+    if via == "sequence":
+        if len(stages) >= 2 and rng.random() < 0.2:
+            i = rng.randint(0, len(stages) - 1)
+            case["group"] = [i, rng.randint(i + 1, len(stages))]
+        if '"count"' not in txt and '"fc"' not in txt and '"fr"' not in txt and '"cache"' not in txt \
+                and rng.random() < 0.5:
+            case["reuse"] = rng.randint(0, 8)     # stateless elements: a second run is a fresh run
+    if _exact(stages) and n <= 12:
+        case["probe"] = True
+    return case
 
+
+def _exact(stages):
+    """elements that hand a result over the moment the input value that causes it is pulled (no look-ahead, lag or
+    block): callables and their kin, Filter, Slice with non-negative arguments, RunIf of such"""
+    for st in stages:
+        t = st["t"]
+        if t in ("map", "filter"):
+            continue
+        if t == "slice" and all(x is None or x >= 0 for x in
+                                ((None if st.get("form", 3) == 1 else st["start"]), st["stop"])):
+            continue
+        if t == "runif" and _exact(st["inner"]) and '"slice"' not in json.dumps(st["inner"]):
+            continue
+        return False
+    return True
+
+
+_FR = {"k": "fr", "pre": [], "stop": None, "post": []}
 
 PALETTE = [
     {"t": "map", "f": ["add", 1], "impl": "callable"},
@@ -1096,6 +1237,7 @@ PALETTE = [
     {"t": "split", "bufsize": 2, "copy": True, "branches": [
         {"k": "seq", "stages": [{"t": "map", "f": ["mul", 2], "impl": "callable"}]},
         {"k": "seq", "stages": [{"t": "filter", "p": ["mod", 2, 0]}], "bare": True}]},
+    {"t": "split", "bufsize": 2, "copy": True, "branches": [dict(_FR)]},
     {"t": "split", "bufsize": 3, "copy": True, "branches": [
         {"k": "fc", "pre": [{"t": "slice", "start": None, "stop": 2, "step": None, "form": 1}], "name": "count", "c0": 0, "post": []},
         {"k": "seq", "stages": [{"t": "map", "f": ["mul", 2], "impl": "callable"}]}]},
@@ -1131,12 +1273,27 @@ def fixed_cases(tier):
             cases.append(mk_case([outer], 7, ks=[0, 1, 4]))
             cases.append(mk_case([outer, {"t": "slice", "start": None, "stop": 3, "step": None, "form": 1}], None, K=5,
                                  ks=[1], via="source"))
+    # fill/request branches are per-block branches: their request() results belong to the block
+    for brs in ([dict(_FR)], [dict(_FR, stop=3), dict(twice)], [dict(twice), dict(_FR, pre=[{"t": "filter", "p": ["mod", 2, 0]}])]):
+        sp = {"t": "split", "bufsize": 2, "copy": True, "branches": brs}
+        cases.append(mk_case([sp], 7, ks=[0, 1, 2]))
+        cases.append(mk_case([sp], None, K=5, ks=[1, 2]))
+    # a Cache outside a sequence-type branch does not make the Split read everything
+    fcc = {"k": "fc", "pre": [], "name": "count", "c0": 0, "post": [{"t": "cache"}]}
+    cases.append(mk_case([{"t": "split", "bufsize": 2, "copy": True, "branches": [fcc, dict(twice)]}], 10, ks=[0, 1, 3]))
+    cases.append(mk_case([{"t": "split", "bufsize": 2, "copy": True,
+                           "branches": [dict(_FR, post=[{"t": "cache"}]), dict(twice)]}], None, K=4, ks=[1]))
+    # long flows through a Split with a larger bufsize (an extra retained block must exceed the slack of the bound)
+    for b in (8, 16):
+        cases.append(mk_case([{"t": "split", "bufsize": b, "copy": True, "branches": [dict(twice)]}], 5 * b + 3, ks=[0, 1]))
+        cases.append(mk_case([{"t": "split", "bufsize": b, "copy": True, "branches": [dict(fc)]}], 5 * b + 3, ks=[0, 1]))
     # Source with a one-pass iterator object as its first element
     for n in (4, None):
         cases.append(mk_case([{"t": "map", "f": ["add", 1], "impl": "callable"},
                               {"t": "slice", "start": None, "stop": 3, "step": None, "form": 1}], n, K=5, ks=[0, 1, 3],
                              via="source_iter"))
         cases.append(mk_case([], n, K=2, ks=[0, 1], via="source_iter"))
+        cases.append(mk_case([{"t": "filter", "p": ["mod", 2, 0]}], n, K=2, ks=[0, 1], via="source_iterable"))
     return cases
 
 
@@ -1235,7 +1392,7 @@ def shrink(case):
 # ---- MANIFEST texts ------------------------------------------------------------------------
 RULE = ("quick and thorough: fixed cases (documented examples; negative Slice over long flows; Split with a "
         "fill/compute branch that stops, over finite and infinite inputs), every single Slice with start, stop in "
-        "{None,-3..3}, step in {None,1,2} over short flows, every ordered pair of a 17-element palette of streaming "
+        "{None,-3..3}, step in {None,1,2} over short flows, every ordered pair of an 18-element palette of streaming "
         "elements over finite and infinite inputs, and seeded random pipelines (0..4 elements: callables, Variable, "
         "Print, Context, UpdateContext, MakeFilename, Filter, Slice, Count, RunIf (also with Count inside, also given a "
         "Selector and a Sequence), Split with sequence, fill/compute (tuple or explicit FillComputeSeq, FillInto(Count) "
